@@ -23,6 +23,8 @@ TRUSTED = ("CPython ast", "numba prange semantics", "osyris operator semantics (
 TECHNIQUE = ("static analysis: symbolic (polynomial) evaluation of the numba kernel, parallel-loop write classification, "
              "asymptotic-limit and dependence analyses of the pre-selection masks, formula identities")
 
+from . import map_folds as mf
+
 
 def r1(run, tree):
     run.rule("C03.R1", "kernel writes only under full closed containment", "D1 symbolic kernel evaluation", "", floor=6)
@@ -46,18 +48,14 @@ def r4_r5(run, tree):
 
 
 def r6(run, tree):
-    run.rule("C03.R6", "NaN means 'no cell' end to end", "path rule", "", floor=3)
-    mr.check_nan_mask(run, tree)
+    run.rule("C03.R6", "NaN means 'no cell' end to end; slot bookkeeping: every rendered layer is made of its own kernel slots",
+             "D7 fold of map() over token layers with symbolic numpy values (first axis of stacked arrays tracked element-wise)", "", floor=6)
+    mf.check_map(run, tree, aspects=("slots", "rendered"))
 
 
 def r7(run, tree):
-    run.rule("C03.R7", "one length scale; axis pairing of the kernel arguments", "sibling agreement", "", floor=6)
-    mr.check_axis_pairing(run, tree)
-
-
-def r8(run, tree):
-    run.rule("C03.R8", "pixel-centre grid formulas", "D1 polynomial identities", "", floor=4)
-    mr.check_grid_formulas(run, tree, "xy")
+    run.rule("C03.R7", "one length scale; axis pairing of the kernel arguments; pixel-centre grid; pixel positions", "D7 fold of map() + D1 on scalars", "", floor=3)
+    mf.check_map(run, tree, aspects=("geometry",))
 
 
 def r9(run, tree):
@@ -77,4 +75,4 @@ def r9(run, tree):
     run.cur_rule = cur
 
 
-RULES = [r1, r2, r3, r4_r5, r6, r7, r8, r9]
+RULES = [r1, r2, r3, r4_r5, r6, r7, r9]
